@@ -837,19 +837,22 @@ impl<'a> Searcher<'a> {
         }
         
         if let Some(ref _function) = column_expr.function {
-            let result =
-                self.get_function_value(entry, file_info, file_map, buffer_data, column_expr);
+            let result = self
+                .get_function_value(entry, file_info, file_map, buffer_data, column_expr)
+                .with_sign(column_expr.minus);
             file_map.insert(column_expr_str, result.to_string());
             return result;
         }
 
         if let Some(ref field) = column_expr.field {
             if entry.is_some() {
-                let result = self.get_field_value(entry.unwrap(), file_info, field);
+                let result = self
+                    .get_field_value(entry.unwrap(), file_info, field)
+                    .with_sign(column_expr.minus);
                 file_map.insert(column_expr_str, result.to_string());
                 return result;
             } else if let Some(val) = file_map.get(&field.to_string()) {
-                return Variant::from_string(val);
+                return Variant::from_string(val).with_sign(column_expr.minus);
             } else {
                 return Variant::empty(VariantType::String);
             }
